@@ -1,7 +1,7 @@
 (* C14: soundness of the boolean checker evaluated on the implementation's
    output, and the worked examples (non-vacuity, boundary cases, witnesses). *)
 From Verif Require Import Lib.Base Sched.Elect Sched.ElectSpec Sched.ElectLemmas
-  Sched.ElectProofs Sched.ElectProofs2.
+  Sched.ElectProofs Sched.ElectProofs2 Sched.CommitteeProofs Sched.EngineProofs.
 From Coq Require Import Permutation.
 
 Lemma validator_ok_b_sound p ents epoch nodes kv :
@@ -31,8 +31,8 @@ Proof.
 Qed.
 
 (* whatever passes the checker satisfies the relational statement *)
-Theorem election_ok_b_sound p ents epoch nodes vals :
-  election_ok_b p ents epoch nodes vals = true -> election_ok p ents epoch nodes vals.
+Theorem election_ok_b_sound p ents epoch nodes extra vals :
+  election_ok_b p ents epoch nodes extra vals = true -> election_ok p ents epoch nodes extra vals.
 Proof.
   unfold election_ok_b, election_ok. intros H.
   repeat (apply andb_true_iff in H; let H' := fresh "C" in destruct H as [H H']).
@@ -41,31 +41,27 @@ Proof.
     rewrite forallb_forall in H. apply H. exact Hkv.
   - intros e. destruct (count_ent_zero_or_in e vals) as [->|[kv [Hkv <-]]]; [lia|].
     rewrite forallb_forall in C2. specialize (C2 kv Hkv). lia.
-  - intros Hby e e' [n [Hn [Hl [Hc He]]]] Hnr [kv [Hkv Hek]].
+  - intros Hby e e' [n [Hn [Hl [Hc [Hx He]]]]] Hnr [kv [Hkv Hek]].
     rewrite Hby in C. cbn [orb] in C. rewrite forallb_forall in C. specialize (C n Hn).
-    rewrite Hl, Hc in C. cbn [andb negb orb] in C.
+    rewrite Hl, Hc, Hx in C. cbn [andb negb orb] in C.
     destruct (represented_b vals (n_ent n)) eqn:Er.
     + exfalso. apply Hnr. unfold represented_b in Er. apply existsb_exists in Er.
       destruct Er as [kv' [H1 H2]]. exists kv'. split; [exact H1|lia].
     + cbn [orb] in C. rewrite forallb_forall in C. specialize (C kv Hkv). subst. lia.
 Qed.
 
-Lemma list_eqb_pair_eq (a b : list (N * N)) : list_eqb pair_eqb a b = true -> a = b.
-Proof.
-  revert b. induction a as [|[x y] a IH]; intros [|[x' y'] b]; cbn [list_eqb]; try discriminate; [reflexivity|].
-  intros H. apply andb_true_iff in H. destruct H as [H1 H2]. unfold pair_eqb in H1. cbn [fst snd] in H1.
-  rewrite (IH _ H2). f_equal. f_equal; lia.
-Qed.
-
 (* what a [true] of the per-epoch check on the implementation's output means *)
 Theorem impl_ok_b_sound i vals ups comms :
   impl_ok_b i (EOk vals ups comms) = true ->
-  election_ok (i_params i) (sort_by e_addr (i_ents i)) (i_epoch i) (i_nodes i) vals /\
-  Permutation (apply_updates (i_current i) ups) (powers_of vals).
+  election_ok (i_params i) (sort_by e_addr (i_ents i)) (i_epoch i) (i_nodes i) (val_extra i) vals /\
+  Permutation (apply_updates (i_current i) ups) (powers_of vals) /\
+  comms_ok (i_fv261 i) (i_params i) (sort_by e_addr (i_ents i)) (map ent_of vals) (i_epoch i)
+    (committee_nodes i (sort_by n_id (i_nodes i))) (vrf_blocked i) (i_rts i) (committee_srcs i) comms.
 Proof.
-  unfold impl_ok_b. intros H. apply andb_true_iff in H. destruct H as [H1 H2].
-  split; [apply election_ok_b_sound; exact H1|].
-  unfold pmap_eqb in H2. apply list_eqb_pair_eq in H2.
+  unfold impl_ok_b. intros H. apply andb_true_iff in H. destruct H as [H H3].
+  apply andb_true_iff in H. destruct H as [H1 H2].
+  split; [apply election_ok_b_sound; exact H1|]. split; [|apply comms_ok_b_sound; exact H3].
+  unfold pmap_eqb in H2. apply list_eqb_pair_eq' in H2.
   rewrite <- (sort_by_perm fst (apply_updates (i_current i) ups)), H2. apply sort_by_perm.
 Qed.
 
@@ -76,7 +72,7 @@ Qed.
 Definition ex_ents : list entity :=
   [ mkEnt 11 5000 [100; 200]; mkEnt 12 1000 [100; 200]; mkEnt 13 1000 [100; 200];
     mkEnt 14 300 [100; 200]; mkEnt 15 299 [100; 200] ].
-Definition vnode (id ent : N) (exp freeze : N) : node := mkNode id ent (id + 100) 8 exp freeze [] [].
+Definition vnode (id ent : N) (exp freeze : N) : node := mkNode id ent (id + 100) 8 exp freeze 0 [] [].
 Definition ex_nodes : list node :=
   [ vnode 5 15 9 0; vnode 4 14 9 0; vnode 3 13 9 0; vnode 2 12 7 0; vnode 1 11 9 0;
     vnode 6 11 9 3; vnode 7 11 6 0 ].
@@ -99,15 +95,15 @@ Proof. vm_compute. reflexivity. Qed.
 (* both tie outcomes pass the checker; a result electing the under-staked
    entity, a frozen node, or skipping a higher stake is rejected *)
 Example ex_checker_accepts :
-  election_ok_b (ex_params 2) ex_ents 7 ex_nodes [(101, (1, 11, 312)); (102, (2, 12, 62))] = true /\
-  election_ok_b (ex_params 2) ex_ents 7 ex_nodes [(101, (1, 11, 312)); (103, (3, 13, 62))] = true.
+  election_ok_b (ex_params 2) ex_ents 7 ex_nodes no_extra [(101, (1, 11, 312)); (102, (2, 12, 62))] = true /\
+  election_ok_b (ex_params 2) ex_ents 7 ex_nodes no_extra [(101, (1, 11, 312)); (103, (3, 13, 62))] = true.
 Proof. vm_compute. split; reflexivity. Qed.
 Example ex_checker_rejects :
-  election_ok_b (ex_params 2) ex_ents 7 ex_nodes [(101, (1, 11, 312)); (105, (5, 15, 18))] = false /\
-  election_ok_b (ex_params 2) ex_ents 7 ex_nodes [(106, (6, 11, 312)); (102, (2, 12, 62))] = false /\
-  election_ok_b (ex_params 2) ex_ents 7 ex_nodes [(101, (1, 11, 312)); (104, (4, 14, 18))] = false /\
-  election_ok_b (ex_params 2) ex_ents 7 ex_nodes [(101, (1, 11, 312)); (102, (2, 12, 62)); (103, (3, 13, 62))] = false /\
-  election_ok_b (ex_params 2) ex_ents 7 ex_nodes [(101, (1, 11, 312)); (102, (2, 12, 63))] = false.
+  election_ok_b (ex_params 2) ex_ents 7 ex_nodes no_extra [(101, (1, 11, 312)); (105, (5, 15, 18))] = false /\
+  election_ok_b (ex_params 2) ex_ents 7 ex_nodes no_extra [(106, (6, 11, 312)); (102, (2, 12, 62))] = false /\
+  election_ok_b (ex_params 2) ex_ents 7 ex_nodes no_extra [(101, (1, 11, 312)); (104, (4, 14, 18))] = false /\
+  election_ok_b (ex_params 2) ex_ents 7 ex_nodes no_extra [(101, (1, 11, 312)); (102, (2, 12, 62)); (103, (3, 13, 62))] = false /\
+  election_ok_b (ex_params 2) ex_ents 7 ex_nodes no_extra [(101, (1, 11, 312)); (102, (2, 12, 63))] = false.
 Proof. vm_compute. repeat split; reflexivity. Qed.
 
 (* the hypotheses of validators_by_descending_stake hold on the example *)
@@ -133,18 +129,42 @@ Proof. vm_compute. split; reflexivity. Qed.
 
 (* a committee: two workers and one backup out of three eligible compute nodes
    of two entities with MaxNodes = 1 for workers; with only one entity there is
-   no committee at all *)
-Definition cnode (id ent : N) : node := mkNode id ent (id + 100) 1 9 0 [(77, 4294967296, false)] [].
+   no committee at all.  Entropy tables and VRF sortition. *)
+Definition cnode (id ent : N) : node := mkNode id ent (id + 100) 1 9 0 0 [(77, 4294967296, None)] [].
 Definition ex_rt : runtime :=
-  mkRt 77 true false 2 1 [(4294967296, 0)] (mkCs false (Some 1) (Some 2)) (mkCs false None None).
+  mkRt 77 true false 2 1 [(4294967296, 0)] (mkCs false (Some 1) (Some 2)) (mkCs false None None) 0.
+Definition ex_tbl : shuffle_src := ByTable [[]; [0]; [1; 0]; [2; 0; 1]].
 Example ex_committee :
-  elect_committee true (ex_params 2) ex_ents [] 7 ex_rt [cnode 21 11; cnode 22 11; cnode 23 12]
-                  [[]; [0]; [1; 0]; [2; 0; 1]] [[]; [0]; [1; 0]; [2; 0; 1]]
+  elect_committee true (ex_params 2) ex_ents [] 7 ex_rt [cnode 21 11; cnode 22 11; cnode 23 12] false ex_tbl ex_tbl
   = Some [(1, 23); (1, 21); (2, 23)] /\
-  elect_committee true (ex_params 2) ex_ents [] 7 ex_rt [cnode 21 11; cnode 22 11]
-                  [[]; [0]; [1; 0]; [2; 0; 1]] [[]; [0]; [1; 0]; [2; 0; 1]]
+  elect_committee true (ex_params 2) ex_ents [] 7 ex_rt [cnode 21 11; cnode 22 11] false ex_tbl ex_tbl
+  = None /\
+  committee_ok_b true (ex_params 2) ex_ents [] 7 ex_rt [cnode 21 11; cnode 22 11; cnode 23 12] false ex_tbl ex_tbl
+    [(1, 23); (1, 21); (2, 23)] = true /\
+  committee_ok_b true (ex_params 2) ex_ents [] 7 ex_rt [cnode 21 11; cnode 22 11; cnode 23 12] false ex_tbl ex_tbl
+    [(1, 22); (1, 21); (2, 23)] = false /\
+  committee_ok_b true (ex_params 2) ex_ents [] 7 ex_rt [cnode 21 11; cnode 22 11; cnode 23 12] false ex_tbl ex_tbl
+    [(1, 23); (2, 23)] = false.
+Proof. vm_compute. repeat split; reflexivity. Qed.
+
+(* VRF: node 22 wins the de-duplication of entity 11 by its dedup beta, node 21
+   has no proof and is ineligible; the election order follows the election betas *)
+Definition ex_dedup : N -> option N := tbl_of [(22, 5); (23, 9); (24, 7)].
+Definition ex_elect : N -> option N := tbl_of [(22, 30); (23, 10); (24, 20)].
+Example ex_committee_vrf :
+  elect_committee true (ex_params 2) ex_ents [] 7 ex_rt
+    [cnode 21 11; cnode 22 11; cnode 23 12; cnode 24 11] false (ByBeta ex_dedup ex_elect) (ByBeta ex_dedup ex_elect)
+  = Some [(1, 23); (1, 22); (2, 23)] /\
+  elect_committee true (ex_params 2) ex_ents [] 7 ex_rt
+    [cnode 21 11; cnode 22 11; cnode 23 12; cnode 24 11] true (ByBeta ex_dedup ex_elect) (ByBeta ex_dedup ex_elect)
   = None.
 Proof. vm_compute. split; reflexivity. Qed.
+
+(* a TEE runtime takes only nodes whose capability has the same hardware and a verifying attestation *)
+Example ex_tee :
+  tee_ok 1 (Some (1, true)) = true /\ tee_ok 1 (Some (1, false)) = false /\ tee_ok 1 (Some (2, true)) = false /\
+  tee_ok 1 None = false /\ tee_ok 0 None = true /\ tee_ok 0 (Some (1, true)) = false.
+Proof. vm_compute. repeat split; reflexivity. Qed.
 
 (* ---------- an observation about a degenerate parameter ----------
    The limit check runs after the insertion (scheduler.go:594), so with
